@@ -450,3 +450,23 @@ PROPS["C13"]["assumptions"] += ["hash / index maps behave as dictionaries (libra
                                 "NodeId / SubstateKey are used only through Copy/Clone and equality (opaque values)"]
 PROPS["C13"]["trusted_base"] = KANI_TB + MIR_TB
 PROPS["C13"]["mir"] = True
+
+
+PROPS["C06"] = dict(
+    title="Fees are fully paid and exactly distributed",
+    functions=["radix_engine::system::system_modules::costing::SystemLoanFeeReserve::{new, consume_execution_internal, "
+               "consume_finalization_internal, check_execution_cost_unit_limit, check_finalization_cost_unit_limit, "
+               "finalize}", "radix_transactions::model::TipSpecifier::{proportion, fee_multiplier} (from "
+               "radix-transactions' MIR)", "the Decimal code they call (from radix-common's MIR)"],
+    bounds="every costing parameter set with non-negative prices <= 10^12 XRD per unit and any u32 limits / loan, every "
+           "tip specifier (none, any u16 percentage, any u32 basis points), free credit <= 10^27 XRD; consume: one "
+           "step from an ARBITRARY reserve state (any balance, any committed units); finalize: every state whose "
+           "effective prices are the ones new() derives",
+    outside="repay_all / consume_royalty / consume_storage / lock_fee (IndexMap- and Vec-backed bookkeeping), the "
+            "distribution shares of FeeReserveFinalizationSummary, royalty vault crediting, refunds and the vault "
+            "payments in finalize_fees_for_commit (Track writes), loan repayment ordering across a real execution",
+    assumptions=["costing parameters are non-negative (asserted by new())",
+                 "bnum primitives as in the library model table"],
+    trusted_base=MIR_TB,
+    mir=True,
+)
